@@ -463,4 +463,136 @@ theorem assemble_compressed_lands (H : Hooks) (compress : Bool) (items : List It
     rw [hl] at hslice
     rw [hslice]; exact hb
 
+/-! ### far call / tail: the auipc + jalr pair -/
+
+theorem blobBytes_append (a b : List Item) : blobBytes (a ++ b) = blobBytes a ++ blobBytes b := by
+  induction a with
+  | nil => rfl
+  | cons x t ih => cases x <;> simp [blobBytes, ih]
+
+theorem step_auipc {H : Hooks} {constants L : Dict} {p : Int} {line line' : Line} {rd : RegOp}
+    {ref : String} {it' : Item} {bs : List Nat}
+    (hbody : immBody H constants (.instr line (.u "auipc" rd (.hi (.offset ref)))) p L = .ok ([it'], 0))
+    (hfin : Finish H it' (.blob line' bs)) :
+    ∃ w ra d, bs = leBytes 4 w ∧
+      decode32 w = some (.auipc ra (relocateHi (d - p) % 1048576).toNat) ∧
+      lookupRegister rd = some ra ∧ chainGet constants L ref = some d := by
+  obtain ⟨v, hv, rfl⟩ := C08.instr_item_value H constants L line _ (.hi (.offset ref)) p it' rfl hbody
+  simp only [Instr.isAuipcJump, Bool.false_eq_true, if_false] at hv
+  obtain ⟨x, hx, rfl⟩ := C08.hi_value H _ line _ p v hv
+  obtain ⟨d, hd, rfl⟩ := C08.offset_value H _ line ref p x hx
+  obtain ⟨b, d0, e0, f0, h1, _⟩ := id hfin
+  obtain ⟨args, w, hargs, henc, hout⟩ := instrStep_bytes h1
+  simp only [Instr.setImm, Instr.args, Option.some.injEq] at hargs
+  subst hargs
+  simp only [Instr.setImm, Instr.name] at henc
+  obtain ⟨ops, hden, hleg, hlt, hsome, hdec⟩ :=
+    C01.encode32_sound "auipc" (.u 0b0010111) (by decide) rfl _ w henc
+  simp only [C01.denote32, C01.denoteReg, bind, Option.bind] at hden
+  cases hr : lookupRegister rd with
+  | none => simp [hr] at hden
+  | some ra =>
+    simp only [hr, Option.map_some, pure, Option.some.injEq] at hden
+    subst hden
+    have hcl : classOf "auipc" = some .auipc := by decide
+    simp only [intent32, hcl, intentOf] at hdec
+    have hz := finish_of_blob hfin (by rw [h1, hout])
+    simp only [Item.blob.injEq] at hz
+    refine ⟨w, ra, d, ?_, hdec, rfl, hd⟩
+    simpa [Instr.setImm, Instr.isCompressed] using hz.2
+
+theorem step_jalr_pair {H : Hooks} {constants L : Dict} {p : Int} {line line' : Line} {rd rs : RegOp}
+    {ref : String} {it' : Item} {bs : List Nat}
+    (hbody : immBody H constants (.instr line (.i "jalr" rd rs (.lo (.offset ref)) true)) p L = .ok ([it'], 0))
+    (hfin : Finish H it' (.blob line' bs)) :
+    ∃ w r1 r2 d, bs = leBytes 4 w ∧ decode32 w = some (.jalr r1 r2 (relocateLo (d - (p - 4)))) ∧
+      lookupRegister rd = some r1 ∧ lookupRegister rs = some r2 ∧ chainGet constants L ref = some d := by
+  obtain ⟨v, hv, rfl⟩ := C08.instr_item_value H constants L line _ (.lo (.offset ref)) p it' rfl hbody
+  simp only [Instr.isAuipcJump, if_true] at hv
+  obtain ⟨x, hx, rfl⟩ := C08.lo_value H _ line _ (p - 4) v hv
+  obtain ⟨d, hd, rfl⟩ := C08.offset_value H _ line ref (p - 4) x hx
+  obtain ⟨b, d0, e0, f0, h1, _⟩ := id hfin
+  obtain ⟨args, w, hargs, henc, hout⟩ := instrStep_bytes h1
+  simp only [Instr.setImm, Instr.args, Option.some.injEq] at hargs
+  subst hargs
+  simp only [Instr.setImm, Instr.name] at henc
+  obtain ⟨ops, hden, hleg, hlt, hsome, hdec⟩ :=
+    C01.encode32_sound "jalr" (.ij 0b1100111 0b000) (by decide) rfl _ w henc
+  simp only [C01.denote32, C01.denoteReg, bind, Option.bind] at hden
+  cases hr1 : lookupRegister rd with
+  | none => simp [hr1] at hden
+  | some r1 =>
+    cases hr2 : lookupRegister rs with
+    | none => simp [hr1, hr2] at hden
+    | some r2 =>
+      simp only [hr1, hr2, Option.map_some, pure, Option.some.injEq] at hden
+      subst hden
+      have hcl : classOf "jalr" = some .jalr := by decide
+      simp only [intent32, hcl, intentOf] at hdec
+      have hz := finish_of_blob hfin (by rw [h1, hout])
+      simp only [Item.blob.injEq] at hz
+      refine ⟨w, r1, r2, d, ?_, hdec, rfl, rfl, hd⟩
+      simpa [Instr.setImm, Instr.isCompressed] using hz.2
+
+/-- **A far call / tail lands.**  If, after resolve_aligns, items i and i + 1 are the `auipc` and the
+    marked `jalr` of one far call / tail to `ref`, the eight output bytes at the auipc's byte offset
+    `off` decode to `auipc ra, f` and `jalr r1, lo(r2)` with `off + (f << 12) + lo ≡ value of ref`
+    modulo 2³² — what the machine computes for the jump target when r2 = ra. -/
+theorem assemble_far_pair_lands (H : Hooks) (compress : Bool) (items : List Item) (r : AsmResult)
+    (h : assembleItems H compress items [] [] = .ok r) :
+    ∃ items7 out : List Item, Expands items items7 ∧ r.bytes = blobBytes out ∧
+      ∀ (i : Nat) (hi : i + 1 < items7.length) lineA lineJ rdA rdJ rsJ ref,
+        items7[i] = .instr lineA (.u "auipc" rdA (.hi (.offset ref))) →
+        items7[i + 1] = .instr lineJ (.i "jalr" rdJ rsJ (.lo (.offset ref)) true) →
+        ∃ wa wj ra r1 r2 f lo d,
+          (r.bytes.drop (blobBytes (out.take i)).length).take 4 = leBytes 4 wa ∧
+          (r.bytes.drop ((blobBytes (out.take i)).length + 4)).take 4 = leBytes 4 wj ∧
+          decode32 wa = some (.auipc ra f) ∧ decode32 wj = some (.jalr r1 r2 lo) ∧
+          lookupRegister rdA = some ra ∧ lookupRegister rdJ = some r1 ∧ lookupRegister rsJ = some r2 ∧
+          chainGet r.constants r.labels ref = some d ∧
+          ((((blobBytes (out.take i)).length : Int) + (((f : Int) * 4096) % 4294967296 + lo)) % 4294967296
+            = d % 4294967296) := by
+  obtain ⟨items7, out, hexp, hland, hbytes⟩ := assemble_land H compress items r h
+  refine ⟨items7, out, hexp, hbytes, ?_⟩
+  intro i hi lineA lineJ rdA rdJ rsJ ref hA hJ
+  obtain ⟨itA, lA, dA, hoA, hbodyA, hfinA, hsliceA⟩ := hland.at i (by omega)
+  obtain ⟨itJ, lJ, dJ, hoJ, hbodyJ, hfinJ, hsliceJ⟩ := hland.at (i + 1) hi
+  rw [hA] at hbodyA
+  rw [hJ] at hbodyJ
+  obtain ⟨wa, ra, d, hbA, hdecA, hrA, hdA⟩ := step_auipc hbodyA hfinA
+  obtain ⟨wj, r1, r2, d', hbJ, hdecJ, hr1, hr2, hdJ⟩ := step_jalr_pair hbodyJ hfinJ
+  rw [hdA] at hdJ
+  have hdd : d' = d := (Option.some.inj hdJ).symm
+  subst hdd
+  -- the jalr sits 4 bytes after the auipc
+  have hlA : dA.length = 4 := by rw [hbA, leBytes_length]
+  have hlJ : dJ.length = 4 := by rw [hbJ, leBytes_length]
+  have htake : blobBytes (out.take (i + 1)) = blobBytes (out.take i) ++ dA := by
+    have hi' : i < out.length := by
+      rcases Nat.lt_or_ge i out.length with hlt | hge
+      · exact hlt
+      · rw [List.getElem?_eq_none hge] at hoA; cases hoA
+    rw [List.take_succ, blobBytes_append, hoA]
+    simp [blobBytes]
+  have hoff : (blobBytes (out.take (i + 1))).length = (blobBytes (out.take i)).length + 4 := by
+    rw [htake, List.length_append, hlA]
+  rw [hoff] at hsliceJ hbodyJ
+  have e1 : (0 : Int) + ((blobBytes (out.take i)).length : Int) = ((blobBytes (out.take i)).length : Int) := by omega
+  have e2 : (0 : Int) + (((blobBytes (out.take i)).length + 4 : Nat) : Int) - 4
+      = ((blobBytes (out.take i)).length : Int) := by push_cast; omega
+  rw [e1] at hdecA
+  rw [hoff] at hdecJ
+  rw [e2] at hdecJ
+  refine ⟨wa, wj, ra, r1, r2, (relocateHi (d' - ((blobBytes (out.take i)).length : Int)) % 1048576).toNat,
+    relocateLo (d' - ((blobBytes (out.take i)).length : Int)), d', ?_, ?_, hdecA, hdecJ, hrA, hr1, hr2, hdA, ?_⟩
+  · rw [hbytes]; rw [hlA] at hsliceA; rw [hsliceA]; exact hbA
+  · rw [hbytes]; rw [hlJ] at hsliceJ; rw [hsliceJ]; exact hbJ
+  · have hnn : 0 ≤ relocateHi (d' - ((blobBytes (out.take i)).length : Int)) % 1048576 :=
+      Int.emod_nonneg _ (by omega)
+    have hf : ((relocateHi (d' - ((blobBytes (out.take i)).length : Int)) % 1048576).toNat : Int)
+        = relocateHi (d' - ((blobBytes (out.take i)).length : Int)) % 1048576 := Int.toNat_of_nonneg hnn
+    have hp := C07.pair_rebuilds (d' - ((blobBytes (out.take i)).length : Int))
+    rw [hf]
+    omega
+
 end BB.Props.C03
